@@ -10,6 +10,7 @@ from vf import common, sched
 
 PID = 'C16'
 LEVEL = 'model_checking'
+CAP = None        # quick tier: (first n, last m) dynamic occurrences of each line site; thorough: every occurrence
 
 
 def prepare(_):
@@ -32,9 +33,51 @@ def prepare(_):
     m = [x / n for x in m]
     edge_lonlat = to_lonlat(to_spherical(tuple(m)))
     edge_lonlat = ((edge_lonlat[0] + 180) % 360 - 180, edge_lonlat[1])
-    near = (edge_lonlat[0] + math.degrees(1e-4), edge_lonlat[1] + math.degrees(0.5e-4))
+    # ---- force the geometric calls to collide: search, with the library itself, for a boundary call and a lonlat_to_cell call
+    # next to this face edge that touch the SAME lazily filled cache slots, including the reflected ("beyond the edge") ones
+    from a5.core import cell as _cell
+
+    def touched(fn):
+        d = _cell._dodecahedron
+        try:
+            d.face_triangles = []
+            d.spherical_triangles = []
+            d.polyhedral._inverse_triangle_cache = {}
+        except Exception:
+            return frozenset()
+        fn()
+        ft = {('face', i) for i, t in enumerate(d.face_triangles) if t is not None}
+        st = {('sph', i) for i, t in enumerate(d.spherical_triangles) if t is not None}
+        return frozenset(ft | st)
+
+    def reflected(slots):
+        return {x for x in slots if (x[0] == 'face' and x[1] >= 10) or (x[0] == 'sph' and x[1] >= 120)}
+
+    offsets = [(a * 1e-3, b * 1e-3) for a in (-8, -3, -1, 0, 1, 3, 8) for b in (-8, -3, -1, -0.1, 0.1, 1, 3, 8)]
+    best = None
+    for res_b in (4, 5, 6):
+        for dx, dy in offsets:
+            p = (edge_lonlat[0] + math.degrees(dx), edge_lonlat[1] + math.degrees(dy))
+            cbx = a5.lonlat_to_cell(p, res_b)
+            sb = touched(lambda: a5.cell_to_boundary(cbx, {'segments': 2}))
+            if not reflected(sb):
+                continue
+            for dx2, dy2 in offsets:
+                q = (edge_lonlat[0] + math.degrees(dx2), edge_lonlat[1] + math.degrees(dy2))
+                sq = touched(lambda: a5.lonlat_to_cell(q, 7))
+                # at least one shared reflected slot, then the cheapest lonlat_to_cell (few candidate cells tested), then most shared slots
+                score = (min(len(reflected(sb) & reflected(sq)), 1), -len(sq), len(sb & sq))
+                if best is None or score > best[0]:
+                    best = (score, cbx, q, sorted(sb & sq))
+        if best is not None and best[0][0] >= 1:
+            break
+    if best is not None and best[0][0] >= 1:
+        cb, near, shared = best[1], best[2], best[3]
+    else:
+        near = (edge_lonlat[0] + math.degrees(1e-4), edge_lonlat[1] + math.degrees(0.5e-4))
+        cb = a5.lonlat_to_cell(edge_lonlat, 5)
+        shared = []
     c7 = a5.lonlat_to_cell(near, 7)
-    cb = a5.lonlat_to_cell(edge_lonlat, 5)
     c4 = a5.cell_to_parent(c7, 4)
     c5 = a5.cell_to_parent(c7, 5)
     sib = a5.cell_to_children(c5, 7)
@@ -42,10 +85,16 @@ def prepare(_):
     fc = to_lonlat(origins[3].axis)
     fc = ((fc[0] + 180) % 360 - 180, fc[1])
     centre_a = (fc[0] + math.degrees(3e-9), fc[1] + math.degrees(1e-9))      # 2 cm from a face centre: the small-angle branches
-    centre_b = (fc[0] - math.degrees(2e-9), fc[1] + math.degrees(4e-9))
+    centre_b = (fc[0] + math.degrees(2e-9), fc[1] + math.degrees(1.5e-9))     # same triangle as centre_a
     c29 = a5.lonlat_to_cell(centre_a, 29)
-    return {'edge': edge_lonlat, 'near': near, 'c7': c7, 'cb': cb, 'c4': c4, 'c5': c5, 'sib': sib, 'strays': strays,
-            'mid': (near[0] + 8.0, near[1] - 6.0), 'centre_a': centre_a, 'centre_b': centre_b, 'c29': c29}
+    # collision matrix of the geometric calls (shared cache slots), for the evidence
+    kk = {'edge': edge_lonlat, 'near': near, 'c7': c7, 'cb': cb, 'c4': c4, 'c5': c5, 'sib': sib, 'strays': strays,
+          'mid': (near[0] + 0.4, near[1] - 0.3), 'centre_a': centre_a, 'centre_b': centre_b, 'c29': c29}
+    menu = build_menu(kk)
+    slots = {n: touched(menu[n]) for n in GEO_A + GEO_B}
+    kk['shared_slots'] = {f'{a}|{b}': [len(slots[a] & slots[b]), len(reflected(slots[a]) & reflected(slots[b]))] for a in GEO_A for b in GEO_B}
+    kk['collision_search'] = {'shared_by_boundary_and_lonlat': [list(x) for x in shared]}
+    return kk
 
 
 def build_menu(k):
@@ -80,7 +129,7 @@ def probe_values(k):
             a5.cell_to_children(k['c5']), a5.compact(list(k['sib'][:4])), a5.uncompact([k['c5']], 6), a5.get_res0_cells()[3])
 
 
-GEO_A = ['lonlat_to_cell_r2', 'lonlat_to_cell_r7_edge', 'cell_to_lonlat', 'boundary_seg2_edge', 'boundary_auto_r4', 'lonlat_to_cell_r29_centre_a']
+GEO_A = ['lonlat_to_cell_r7_edge', 'cell_to_lonlat', 'boundary_seg2_edge', 'boundary_auto_r4', 'lonlat_to_cell_r29_centre_a']
 GEO_B = ['lonlat_to_cell_r7_edge', 'cell_to_lonlat', 'boundary_seg2_edge', 'lonlat_to_cell_r29_centre_b']
 INT_A = ['compact', 'uncompact', 'children_parent', 'scalars', 'scalars_b', 'uncompact_low']
 INT_B = ['compact', 'scalars_c', 'uncompact_low']
@@ -88,16 +137,20 @@ B_QUICK = GEO_B
 
 
 def quick_pairs():
-    """(A, B, warm): geometric x geometric, integer x integer, and the two cross families; warm library against one B"""
+    """(A, B, warm): geometric x geometric (the calls are chosen in prepare() so that they share lazily filled cache slots, reflected ones
+    included), integer x integer, and the two cross families; warm library for the two calls with the most shared state"""
     out = []
     for a in GEO_A:
-        for b in GEO_B:
-            if a == 'lonlat_to_cell_r29_centre_a' and b in ('lonlat_to_cell_r7_edge', 'boundary_seg2_edge'):
-                continue          # the long resolution-29 call is paired with the calls that share its small-angle branches
+        if a == 'lonlat_to_cell_r29_centre_a':
+            # the long resolution-29 call is paired with the calls that share its triangle and its small-angle branches
+            out.append((a, 'lonlat_to_cell_r29_centre_b', False))
+            out.append((a, 'cell_to_lonlat', False))
+            continue
+        for b in ('lonlat_to_cell_r7_edge', 'cell_to_lonlat', 'boundary_seg2_edge'):
             out.append((a, b, False))
+    for a in ('lonlat_to_cell_r7_edge', 'boundary_seg2_edge'):
         out.append((a, 'scalars_c', False))
-        if a != 'lonlat_to_cell_r29_centre_a':
-            out.append((a, 'boundary_seg2_edge', True))
+        out.append((a, 'boundary_seg2_edge', True))
     for a in INT_A:
         for b in INT_B:
             out.append((a, b, False))
@@ -129,6 +182,9 @@ def pair(task):
     gc.disable()
     ex = sched.Explorer(prefix, gran)
     ex.after = lambda: probe_values(k)
+    if CAP is not None:
+        ex.occ_total = ex.count_sites(menu[an])
+        ex.occ_cap = CAP
     res = ex.explore(menu[an], menu[bn], only)
     temp = 'warm' if warm else 'cold'
     base = f'{an}|{bn}|{temp}|{gran}'
@@ -172,12 +228,15 @@ def pair(task):
     acc.strata[f'{an}|{bn}'] += len(res)
     acc.n['nontrivial'] += len(sites)
     acc.n['bad_points'] += bad
+    acc.n['points_skipped_by_occurrence_cap'] += ex.skipped
     acc.pair_info = (base, len(res), len(sites), bad)
     acc.sites = sites
     return acc
 
 
 def run(tier, t0, only_pairs=None):
+    global CAP
+    CAP = (6, 2) if tier == 'quick' else None
     acc = common.Acc()
     # NOTE: this process never calls into a5 (it only imports it), so every forked task starts from a pristine library.
     def one(func, arg):
@@ -194,7 +253,10 @@ def run(tier, t0, only_pairs=None):
             out[i] = res
         return out
 
+    import time as _t
+    _t0 = _t.time()
     k = one(prepare, None)
+    acc.notes.append('phase prepare %.1fs' % (_t.time() - _t0))
     names = sorted(build_menu(k))
     solo_vals = dict(many(solo, [(n, k) for n in names + ['<probe>']]))
     solo2 = dict(many(solo, [(n, k) for n in names + ['<probe>']]))
@@ -203,23 +265,31 @@ def run(tier, t0, only_pairs=None):
             raise RuntimeError(f'pristine single call {n} is not deterministic')
         if solo_vals[n][0] != 'ok':
             acc.violation(f'c16:solo-raises:{n}', f'{n} raises when run alone: {solo_vals[n][1]}', {'A': n, 'B': n, 'warm': False, 'gran': 'line', 'k': 0})
+    acc.notes.append('phase solo %.1fs' % (_t.time() - _t0))
     tasks = []
+    SPLIT = {'lonlat_to_cell_r2': 4, 'lonlat_to_cell_r7_edge': 4, 'boundary_seg2_edge': 2, 'boundary_auto_r4': 2, 'lonlat_to_cell_r29_centre_a': 2}
     if tier == 'quick':
         for an, bn, warm in quick_pairs():
-            tasks.append((an, bn, warm, 'line', k, solo_vals, None))
+            m = SPLIT.get(an, 1)
+            for i in range(m):      # long calls: the preemption points are split into residue classes explored by separate processes
+                tasks.append((an, bn, warm, 'line', k, solo_vals, (m, i) if m > 1 else None))
         A, B = sorted({t[0] for t in tasks}), sorted({t[1] for t in tasks})
     else:
         A, B = names, names
         for an in A:
             for bn in B:
                 for warm in (False, True):
-                    tasks.append((an, bn, warm, 'line', k, solo_vals, None))
+                    m = SPLIT.get(an, 1)
+                    for i in range(m):
+                        tasks.append((an, bn, warm, 'line', k, solo_vals, (m, i) if m > 1 else None))
     if tier == 'thorough':
         short = ['cell_to_lonlat', 'scalars', 'scalars_b', 'uncompact_low', 'children_parent', 'uncompact', 'compact', 'cell_to_lonlat_r4', 'lonlat_to_cell_r2', 'cell_to_lonlat_r29_centre']
         for an in short:
             for bn in B_QUICK + ['scalars_c']:
                 tasks.append((an, bn, False, 'instruction', k, solo_vals, None))
     tasks = common.rotate(tasks, common.seed())
+    cost = {'lonlat_to_cell_r2': 9, 'lonlat_to_cell_r7_edge': 8, 'boundary_seg2_edge': 7, 'boundary_auto_r4': 6, 'lonlat_to_cell_r29_centre_a': 6, 'lonlat_to_cell_r12': 8}
+    tasks.sort(key=lambda t: -cost.get(t[0], 1))          # longest explorations first (load balance); stable, so the seed rotation survives inside a class
     allsites = set()
     for _, part in common.fresh_map(pair, tasks):
         if isinstance(part, Exception):
@@ -228,20 +298,24 @@ def run(tier, t0, only_pairs=None):
         if part.pair_info[3]:
             acc.notes.append('%s: %d points, %d sites, %d bad' % part.pair_info)
         acc.merge(part)
+    acc.notes.append('phase explore %.1fs' % (_t.time() - _t0))
     # determinism: one recorded point explored twice more, in two fresh processes, must give the same observation
-    probe = ('lonlat_to_cell_r7_edge', 'boundary_seg2_edge', False, 'line', k, solo_vals, [137, 500])
+    probe = ('lonlat_to_cell_r7_edge', 'boundary_seg2_edge', False, 'line', k, solo_vals, [5, 60, 137])
     r1 = one(pair, probe)
     r2 = one(pair, probe)
-    if (r1.n['validated'], sorted(r1.vmap)) != (r2.n['validated'], sorted(r2.vmap)) or r1.n['states'] != 2:
+    if (r1.n['validated'], r1.n['states'], sorted(r1.vmap)) != (r2.n['validated'], r2.n['states'], sorted(r2.vmap)) or r1.n['states'] < 1:
         raise RuntimeError('replaying one schedule point twice gave different observations: the explorer does not own all nondeterminism')
+    acc.notes.append('phase determinism %.1fs' % (_t.time() - _t0))
     acc.n['distinct_preemption_sites'] = len(allsites)
     acc.sample({'A': 'lonlat_to_cell_r7_edge', 'B': 'boundary_seg2_edge', 'schedule': 'A runs to its k-th line event inside a5/, B runs to completion, A resumes', 'k': 137})
-    acc.sample({'menu_constants': {kk: (hex(v) if isinstance(v, int) else v) for kk, v in k.items() if kk != 'sib'}})
+    acc.sample({'menu_constants': {kk: (hex(v) if isinstance(v, int) else v) for kk, v in k.items() if kk not in ('sib', 'shared_slots')}})
+    acc.sample({'shared_cache_slots [all, reflected] per geometric pair': k.get('shared_slots')})
     acc.sample({'some_sites': sorted(allsites)[:5]})
     rule = (f'{len(tasks)} explorations over {len(A)} calls A and {len(B)} calls B (cold and warm library): every line event of A inside the a5 package is a preemption point at which B runs to completion '
             '(thorough: full 18x18 product and every bytecode instruction for the short calls); after every schedule a fixed set of probe calls is made single-threaded; a state is (pair, temperature, point); non-trivial counts distinct (file, function, line) sites per pair')
     return common.finish(PID, LEVEL, tier, acc, t0, rule, [
         'context bound 2 (one preemption of A by a complete B, both role assignments); two or more preemptions and free-threaded memory effects are not explored',
+        'quick tier: of the dynamic occurrences of one line site (same file, function, line) inside A only the first 6 and the last 2 are preemption points (counters.points_skipped_by_occurrence_cap); the thorough tier explores every occurrence',
         'values compared bit-for-bit (floats by hex) with the same call run alone in a process forked from a pristine import',
         'a child that does not finish within 10 s counts as blocked (a schedule a lock would forbid), never as a violation',
     ], extra={'explorations': len(tasks), 'granularity': 'line' + (' + instruction (short calls)' if tier == 'thorough' else '')}, exhaustive=True)
